@@ -55,7 +55,7 @@ func (Prop) SelfTest() error {
 
 func (Prop) Rule() string {
 	return "E2: full product of the key alphabet (SM2 and ECDH scalars {1,2,n-2,2^248-1,2^255,3 hash-chain values}; SM9 sign/encrypt master keys from scalars {1,2,hash-chain,N-2,2^248-1}, " +
-		"one user key and the master public key of each: six SM9 kinds; embedded RSA-1024/2048; ECDSA P-256 {chain,1,n-1}, P-384 {chain,2^376-1}) x containers " +
+		"one user key and the master public key of each: six SM9 kinds; embedded RSA-1024/2048; ECDSA P-256 {chain,1,n-1}, P-384 {chain,2^376-1}, P-224 {chain,2^216-1}, P-521 {chain,2^520,n-1}) x containers " +
 		"(PKCS#8 plain; PKCS#8 PBES2 with each of the 12 pkcs ciphers [SM4 ECB/CBC/GCM, CFCA SM4 OID, AES-128/192/256 CBC/GCM, DES, 3DES] x each KDF option [PBKDF2 x 8 PRFs x count 1,2 x salt sizes, ShangMi PBKDF2 OID, scrypt N=16] " +
 		"under the PBES2 OID, the ShangMi PBES OID with SM4-CBC x each KDF option, hand-built PBES2 seeds with DEFAULT prf/absent keyLength, six PBES1 variants x count 1,2; SEC1; PKCS#1; PKIX public key; " +
 		"legacy RFC 1423 PEM with all six ciphers x every inner format; SM2 enveloped key x 3 recipients; CFCA blob with a deterministic self-signed certificate; SM9 raw/ASN.1/'compressed ASN.1'/SEQUENCE-wrapped/PEM and compressed point encodings). " +
@@ -64,7 +64,18 @@ func (Prop) Rule() string {
 		"E3: every byte x {xor 01, xor 80} (thorough: all 255 other values for enveloped key and CFCA blob, the 8 single-bit flips and xor ff for GCM PKCS#8) of SM2 enveloped key, CFCA blob and GCM-protected PKCS#8 (4 GCM ciphers x 2-4 KDFs x every private key): error, or a key equal to the original; a panic counts as a violation. " +
 		"Range: scalars {0, n-1 (SM2 only), n, n+1, 2^bits-1} in fixed/minimal/zero-padded OCTET STRING form (SM9 masters: {0,N-1,N,N+1,2^256-1,2^256,-1,-chain} as INTEGER) offered in hand-built SEC1, PKCS#8 (both algorithm OIDs), PKCS#8 under every PBES2 cipher and PBES1 variant, " +
 		"legacy PEM under every cipher, SM2 enveloped key, CFCA blob, raw constructors, SM9 INTEGER / SEQUENCE / PKCS#8 forms: must be refused; the same hand-built containers with the extreme valid scalars {1, n-2 | n-1} must be accepted with exactly that scalar (guards against vacuous refusal). " +
-		"distinct_nontrivial counts distinct (container, option class, key class) combinations decoded plus distinct (container, region, outcome) classes of E3 and (container, curve, scalar, encoding) range offers."
+		"Range also on P-224 and P-521. " +
+		"Widening in the generic input dimensions (cases widen/*): " +
+		"INTEGRITY - every key x every container kind (plain and typed PKCS#8, each of the 12 PBES2 ciphers with KDFs round-robin [thorough: x all 5 KDFs], ShangMi PBES, DEFAULT-prf seeds, 6 PBES1, 6 PEM ciphers, SEC1, PKCS#1, PKIX, SM9 ASN.1/raw, enveloped key x 2 recipients, CFCA blob, the raw constructors sm2.NewPrivateKey/NewPublicKey, ecdh NewPrivateKey/NewPublicKey, sm9 Unmarshal*Raw) " +
+		"x 3 argument layouts (each argument ending at an inaccessible page; record container||password with capacities reaching to the end; record password||container||dirty tail) x the call history wrong password -> right password -> right password again: " +
+		"no key for the wrong password, the key for the right one both times, no byte of any input region (spare capacity included) changes during a decode, the returned keys survive the caller overwriting all its input buffers and the other returned key, and the same memory refilled with another key of the kind decodes to that key. " +
+		"OWNERSHIP - every encoder of every key (PKCS#8, SEC1, PKCS#1, PKIX, 12 PBES2 + 6 PEM wrappers on one stream, enveloped key, CFCA blob, every Bytes()/MarshalASN1()/MarshalCompressedASN1() of the SM9 and ecdh types) called three times on a fresh key object with the harness overwriting every returned buffer (spare capacity included) in between: same bytes every time, key object still the key. " +
+		"HISTORY - every ordered pair (a,b) of decode operations (all containers of two keys of different kinds under different passwords and KDFs, each encrypted one also with a wrong password; thorough: five keys) run as a;b;a inside one case: every call answers as when run alone (process-wide cipher/KDF tables); one PBESEncrypter object (12 PBES2, ShangMi, 6 PBES1) used for small/large/small keys with alternating passwords, after a failing random source, interleaved with a second object: byte-identical to a fresh encrypter on the same stream. " +
+		"LENGTH CLASSES - SM9 master keys with scalars 2^(8j-1)-1 and 2^(8j)-1 (inner INTEGER of every length 3..34, i.e. every residue mod 8 and mod 16 over 1-3 blocks) through 6 PEM ciphers x 2 inner formats, 12 PBES2 ciphers, ShangMi PBES, 6 PBES1: round trip and one wrong password; SM2/ECDH scalars 2^(8j)-1 for every j=1..31 (every count of leading zero bytes) through PKCS#8, SEC1 (+minimal/padded forms), raw, enveloped key and CFCA blob with the standards' shape checks. " +
+		"VARIANTS - the 8 typed parse helpers of pkcs8 with a password on 3 encrypted containers per key (right type: the key; other type: no key; wrong password: no key); hand-built enveloped keys with symAlgID 1.2.156.10197.1.104 with and without NULL, CFCA blobs with the SM4-CBC OID and fixed-width scalar, PBES2 with the bare SM4 OID and no parameters (ECB): must decode to the key, wrong secret no key; RSA public keys with e in {3,5,17,257,65537,65539,2^31-1} through PKIX and PKCS#1; crypto/ecdh P-256/384/521 private and public keys x 4 scalars through PKCS#8 and PKIX. " +
+		"MISMATCH - enveloped key and CFCA blob for every SM2 key with the public part replaced by -(dG), (d+1)G, 2(dG), G and the scalar by n-d: refused; the matching pair accepted. " +
+		"CAPACITY - every padding encrypter (12 PBES2, ShangMi, 6 PBES1, 6 PEM, cfca.EncryptBySM4CBC) x 6 plaintext length classes (padding 1, 8, 9, full block, ...) x 6 capacity classes of the plaintext (none, 1, padding-1, exact fit, padding+1, ample; dirty) x 3 of the password: result identical to the exactly-sized call, plaintext bytes and the password's whole array unchanged. " +
+		"distinct_nontrivial counts distinct (container, option class, key class) combinations decoded plus distinct (container, region, outcome) classes of E3 and (container, curve, scalar, encoding) range offers, plus the (family, container, layout | operation pair | length class | capacity class) classes of the widening."
 }
 
 func (Prop) Assumptions() []string {
@@ -76,6 +87,9 @@ func (Prop) Assumptions() []string {
 		"salts, IVs, nonces, SM4 wrapping keys and SM2 ephemeral scalars come from fixed deterministic streams (one per option); other salt/IV values are not explored. pkcs8.MarshalPrivateKey itself (which reads crypto/rand internally) is exercised once per key with the library's default options and judged by round trip only",
 		"PBKDF2 counts 1-2 and scrypt N<=16 only; containers produced by other tools (OpenSSL, GmSSL, CFCA SADK) are not part of the space except for the hand-built DEFAULT-prf PBES2 seeds",
 		"dispatch configurations: c-default and c-purego on amd64; arm64/ppc64le/s390x assembly is not covered",
+		"ownership oracles are limited to what the property implies for keys: a decoder has no destination in caller memory (inputs incl. their spare capacity stay unchanged), a returned key or buffer does not change when the caller overwrites its own buffers or another result. Not judged: what an encrypter writes into the spare capacity behind the *plaintext* it pads (append-like), the *smx509.Certificate returned by cfca.ParseSM2 (crypto/x509 keeps references into the input by design), the *pkix.AlgorithmIdentifier returned by PBES1.Encrypt (documented field of the object), sm2.PrivateKey.FromECPrivateKey (a documented shallow copy)",
+		"hand-built variants (enveloped key / CFCA OID forms, PBES2 with the bare SM4 OID) are required to decode only where the library source has an explicit branch for that form; every other non-library form is judged by 'error, or the same key'",
+		"history: decode operations only read process-wide tables; user-registered ciphers/KDFs (pkcs.RegisterCipher/RegisterKDF) and changes of pkcs.DefaultOpts are not part of the space",
 	}
 }
 
@@ -177,4 +191,7 @@ func (Prop) Run(c *engine.Ctx) {
 
 	// range
 	runRange(c)
+
+	// generic input dimensions (widen*.go); appended so that the case indices of the families above stay put
+	runWiden(c, ks)
 }
